@@ -359,7 +359,7 @@ def tidal_potential(
     # # Deal with static portion of the potential
     # TODO: Is this used? It is absent from other authors definitions. For now I am including it for this function
     if use_static:
-        static_coeff = (-1. / 3.) - (1. / 2.) * e2 + (1. / 2.) * ob
+        static_coeff = (-1. / 3.) - (1. / 2.) * e2 + (1. / 2.) * ob2
         # The static portion for these assumptions does not depend on longitude so the partial with respect to phi is 0
         #    don't bother adding anything to those partial derivatives.
         potential += static_coeff * p_20
